@@ -14,6 +14,16 @@
 (*         -> "BAD" lines (property-level verdicts), every failing clause named               *)
 (* A read is <<c, x, y, viaClass, viaInstance>>: attribute defined exactly by classes x and y, *)
 (* read through class c; observed definer id (0: attribute-error, -1: anything else).         *)
+(*                                                                                            *)
+(* Case.kind selects what was recorded:                                                       *)
+(*   "hier" plain hierarchies, all levels above                                               *)
+(*   "gen"  hierarchies with generic bases under several spellings (K, K[int], K[str], K[T],  *)
+(*          Generic[T]): levels py, src, mix (statements and reads) and stub (reads through   *)
+(*          the stub classes of the statements that succeed)                                  *)
+(*   "hist" attribute histories: Case.prog is the program (class statements, `K.tag = v`,     *)
+(*          reads of `tag`), replayed with DefineClass / Assign / Read; src.obs[s] (py.obs[s]) *)
+(*          are the markers pytype inferred (CPython produced) for the reads of step s, judged *)
+(*          against hist[s].exp, the definition the spec's own Read action recorded.          *)
 EXTENDS C3, IOUtils, TLCExt
 
 Cases == JsonDeserialize(IOEnv.TRACE_FILE)
@@ -21,26 +31,32 @@ Cases == JsonDeserialize(IOEnv.TRACE_FILE)
 VARIABLES i, j
 
 Case == Cases[i]
-NStmt == Len(Case.bases)
+Prog == IF Case.kind = "hist" THEN Case.prog
+        ELSE [k \in DOMAIN Case.bases |-> [op |-> "class", bases |-> Case.bases[k], def |-> FALSE]]
+NStep == Len(Prog)
 
 TInit == Init /\ i = 1 /\ j = 0 /\ TLCSet(1, FALSE)
 
 Replay ==
   /\ i <= Len(Cases)
   /\ IF pc = "merge" THEN (Emit \/ Fail \/ Finish) /\ UNCHANGED <<i, j>>
-     ELSE /\ j < NStmt
-          /\ DefineClass(Case.bases[j + 1])
+     ELSE /\ j < NStep
+          /\ LET s == Prog[j + 1] IN
+               \/ s.op = "class" /\ DefineClass(s.bases, s.def)
+               \/ s.op = "assign" /\ Assign(s.c)
+               \/ s.op = "read" /\ Read(s.c, s.m)
           /\ j' = j + 1 /\ i' = i
 
 NextCase ==
-  /\ i <= Len(Cases) /\ pc = "idle" /\ j = NStmt
+  /\ i <= Len(Cases) /\ pc = "idle" /\ j = NStep
   /\ i' = i + 1 /\ j' = 0
   /\ hier' = <<>> /\ lin' = <<>> /\ seqs' = <<>> /\ res' = <<>> /\ pc' = "idle"
+  /\ defs' = <<>> /\ hist' = <<>>
   /\ (i' > Len(Cases) => TLCSet(1, TRUE))
 
 TNext == Replay \/ NextCase
 
-Judging == i <= Len(Cases) /\ pc = "idle" /\ j = NStmt
+Judging == i <= Len(Cases) /\ pc = "idle" /\ j = NStep
 
 -----------------------------------------------------------------------------
 (* pytype's documented deviation (known finding C10:duplicate-direct-base): MROMerge removes  *)
@@ -49,9 +65,10 @@ RECURSIVE DedupRec(_, _)
 DedupRec(s, acc) == IF s = <<>> THEN acc
                     ELSE DedupRec(Tail(s), IF Head(s) \in ToSet(acc) THEN acc ELSE Append(acc, Head(s)))
 Dedup(s) == DedupRec(s, <<>>)
-DevAccepts(s) ==    \* would the merge succeed after Dedup of the lists of statement s?
+DevMerge(s) ==
   LET inp == MergeInput(SubSeq(lin, 1, s - 1), hier[s]) IN
-  MergeRec([k \in DOMAIN inp |-> Dedup(inp[k])], <<s>>).ok
+  MergeRec([k \in DOMAIN inp |-> Dedup(inp[k])], <<s>>)
+DevAccepts(s) == DevMerge(s).ok   \* would the merge succeed after Dedup of the lists of statement s?
 
 Expected(r) == FirstDefiner(lin[r[1]].mro, {r[2], r[3]})
 
@@ -73,25 +90,57 @@ ReadClauses(tag, reads) ==
 MroClauses(tag, obs) ==
   {<<tag \o ":wrong-mro", s>> :
      s \in {t \in DOMAIN lin : lin[t].st = "ok" /\ obs[t].ok /\ obs[t].mro # lin[t].mro}}
+  \cup {<<tag \o ":wrong-mro", s>> :   \* the known deviation is exactly "merge after Dedup"
+          s \in {t \in DOMAIN lin : lin[t].st = "dup" /\ obs[t].ok /\ DevAccepts(t)
+                                    /\ obs[t].mro # DevMerge(t).mro}}
   \cup ErrClauses(tag, {t \in DOMAIN obs : ~obs[t].ok})
+
+(* histories: every marker observed for the reads of step s is the one the spec recorded;    *)
+(* a wrong marker that an EARLIER read through the same class legitimately got is named stale *)
+ReadSteps == {t \in DOMAIN hist : hist[t].op = "read"}
+WrongAt(obs, t) == {q \in DOMAIN obs[t] : obs[t][q] # hist[t].exp}
+StaleAt(obs, t) ==
+  \E q \in WrongAt(obs, t) : \E u \in 1 .. (t - 1) :
+     hist[u].op = "read" /\ hist[u].c = hist[t].c /\ hist[u].exp = obs[t][q] /\ obs[t][q] > 0
+HistClauses(tag, obs) ==
+  {<<tag \o ":stale-read-after-assign", s>> :
+     s \in {t \in ReadSteps : WrongAt(obs, t) # {} /\ StaleAt(obs, t)}}
+  \cup {<<tag \o ":history-read", s>> :
+     s \in {t \in ReadSteps : WrongAt(obs, t) # {} /\ ~StaleAt(obs, t)}}
+ShapeOk(obs) ==
+  /\ Len(obs) = Len(hist)
+  /\ \A t \in DOMAIN hist :
+       Len(obs[t]) = (IF hist[t].op # "read" THEN 0 ELSE IF hist[t].m = "all" THEN 3 ELSE 1)
 
 OracleFails ==
   LET p == Case.py IN
   {<<"py:status", s>> : s \in {t \in DOMAIN lin : p.st[t] # lin[t].st}}
   \cup {<<"py:mro", s>> : s \in {t \in DOMAIN lin : lin[t].st = "ok" /\ p.mro[t] # lin[t].mro}}
-  \cup {<<"py:read", k>> : k \in {x \in DOMAIN p.reads :
-           p.reads[x][4] # Expected(p.reads[x]) \/ p.reads[x][5] # Expected(p.reads[x])}}
+  \cup (IF Case.kind = "hist"
+         THEN IF ShapeOk(p.obs) /\ ShapeOk(Case.src.obs)
+                THEN {<<"py:history-read", s>> : s \in {t \in ReadSteps : WrongAt(p.obs, t) # {}}}
+                ELSE {<<"py:shape", 0>>}
+         ELSE {<<"py:read", k>> : k \in {x \in DOMAIN p.reads :
+                 p.reads[x][4] # Expected(p.reads[x]) \/ p.reads[x][5] # Expected(p.reads[x])}})
 
 Fails ==
-  MroClauses("merge", Case.merge) \cup MroClauses("pytd", Case.pytd)
-  \cup ErrClauses("src", ToSet(Case.src.mroerr)) \cup ReadClauses("src", Case.src.reads)
-  \cup ErrClauses("stub", ToSet(Case.stub.mroerr)) \cup ReadClauses("stub", Case.stub.reads)
-  \cup ErrClauses("mix", ToSet(Case.mix.mroerr)) \cup ReadClauses("mix", Case.mix.reads)
+  CASE Case.kind = "hier" ->
+         MroClauses("merge", Case.merge) \cup MroClauses("pytd", Case.pytd)
+         \cup ErrClauses("src", ToSet(Case.src.mroerr)) \cup ReadClauses("src", Case.src.reads)
+         \cup ErrClauses("stub", ToSet(Case.stub.mroerr)) \cup ReadClauses("stub", Case.stub.reads)
+         \cup ErrClauses("mix", ToSet(Case.mix.mroerr)) \cup ReadClauses("mix", Case.mix.reads)
+    [] Case.kind = "gen" ->
+         ErrClauses("src", ToSet(Case.src.mroerr)) \cup ReadClauses("src", Case.src.reads)
+         \cup ErrClauses("mix", ToSet(Case.mix.mroerr)) \cup ReadClauses("mix", Case.mix.reads)
+         \cup ReadClauses("stub", Case.stub.reads)
+    [] Case.kind = "hist" ->
+         ErrClauses("src", ToSet(Case.src.mroerr))
+         \cup (IF ShapeOk(Case.src.obs) THEN HistClauses("src", Case.src.obs) ELSE {})
 
 Ok ==
   Judging =>
     /\ LET o == OracleFails IN o = {} \/ PrintT(<<"ORACLE", ToJson([i |-> i, fails |-> o])>>)
-    /\ LET f == Fails IN f = {} \/ PrintT(<<"BAD", ToJson([i |-> i, fails |-> f])>>)
+    /\ LET f == Fails IN f = {} \/ PrintT(<<"BAD", ToJson([i |-> i, fails |-> f, hist |-> hist])>>)
     /\ lin = Lin(hier) \/ PrintT(<<"ORACLE", ToJson([i |-> i, fails |-> {<<"machine", 0>>}])>>)
 
 Done == TLCGet(1)
